@@ -33,7 +33,7 @@ FAMILIES = [
 # (the verdict itself is TLC's: the ledger is not a behaviour of C04_Obs)
 
 def diagnose(reset, evs):
-    probs, raw, obj, stage, rmof = [], {}, {}, {}, {}
+    probs, raw, obj, stage, rmof, kinds, fds = [], {}, {}, {}, {}, {}, {}
     for e in evs:
         ev = e["ev"]
         if ev == "begin":
@@ -41,6 +41,8 @@ def diagnose(reset, evs):
                 probs.append("begin-twice:" + e["o"])
             obj[e["o"]] = "pending"
             rmof[e["o"]] = e.get("rm")
+            kinds[e["o"]] = (e.get("kind"), e.get("dir"))
+            fds[e["o"]] = bool(e.get("fd"))
         elif ev == "live":
             if obj.get(e["o"]) != "pending":
                 probs.append("live-not-pending:" + e["o"])
@@ -66,18 +68,22 @@ def diagnose(reset, evs):
                     obj[o] = "ended"
         elif ev == "audit":
             r = e["rm"]
-            mine = {o: s for o, s in obj.items() if rmof.get(o) == r}
-            pend = [o for o, s in mine.items() if s == "pending"]
-            live = [o for o, s in mine.items() if s == "live"]
-            if not pend and not live:
-                for k in USAGE_KEYS:
+            mine = [o for o in obj if rmof.get(o) == r]
+
+            def cnt(kind, d, st):
+                return sum(1 for o in mine if kinds.get(o) == (kind, d) and obj[o] == st)
+            for key, kind, d in (("cIn", "conn", "in"), ("cOut", "conn", "out"), ("sIn", "stream", "in"), ("sOut", "stream", "out")):
+                lo, hi = cnt(kind, d, "live"), cnt(kind, d, "live") + cnt(kind, d, "pending")
+                if not (lo <= e.get(key, 0) <= hi):
+                    probs.append("usage:%s:%s" % (r, key))
+            nconn = sum(1 for o in mine if kinds.get(o, ("", ""))[0] == "conn" and obj[o] in ("live", "pending"))
+            nlive = sum(1 for o in mine if kinds.get(o, ("", ""))[0] == "conn" and obj[o] == "live" and fds.get(o))
+            if not (nlive <= e.get("fd", 0) <= nconn):
+                probs.append("usage:%s:fd" % r)
+            if not any(obj[o] in ("live", "pending") for o in mine):
+                for k in ("mem", "tmem", "other", "tsIn", "tsOut", "tcIn", "tcOut", "tfd"):
                     if e.get(k):
                         probs.append("usage:%s:%s" % (r, k))
-            elif not pend:
-                nl = len(live)
-                for k in ("sIn", "sOut", "cIn", "cOut", "fd"):
-                    if e.get(k, 0) > nl:
-                        probs.append("usage-above-live:%s:%s" % (r, k))
             if e.get("final"):
                 if any(s == "pending" for s in obj.values()):
                     probs.append("pending-at-final")
@@ -103,14 +109,18 @@ def class_key(reset, evs):
     if fam == "tcp" and kind == "tracing-conn-error" and probs == ["raw-not-closed:d1"]:
         return "raw-conn-not-closed:tcp-dial-tracing-conn-error", probs
     # an inbound connection whose upgrade COMPLETED (stage muxed), that was never handed out although
-    # somebody was accepting, whose raw connection is closed, and whose scope is all that is left
+    # somebody was accepting, whose raw connection was closed BEFORE the listener / swarm began to close
+    # (it died in the queue), and whose scope is all that is left
     inb = {"upgrader": ("l1", "l"), "tcp": ("l1", "l"), "host": ("cb", "b")}.get(fam)
     if inb and acceptor and pj.get("n", 1) in (0, 1):
         o, rm = inb
         if set(probs) == {"usage:%s:%s" % (rm, k) for k in ("cIn", "fd", "other")} and stage.get(o) == "muxed" \
-                and any(e["ev"] == "raw_close" and e["o"] == o for e in evs) \
                 and not any(e["ev"] == "live" and e["o"] == o for e in evs):
-            return "conn-scope-leak:accept-skips-closed-queued-conn", probs
+            died = [i for i, e in enumerate(evs) if e["ev"] == "raw_close" and e["o"] == o]
+            closing = [i for i, e in enumerate(evs) if e["ev"] == "lclose_call" or (e["ev"] == "swarm_closed" and e.get("rm") == rm)
+                       or (e["ev"] == "note" and e.get("what") == "host_close_race")]
+            if died and (not closing or died[0] < closing[0]):
+                return "conn-scope-leak:accept-skips-closed-queued-conn", probs
     what = "+".join(re.sub(r"\d+$", "", p) for p in probs) or "ledger-rejected"
     st = reset.get("stage") or "-"
     return "%s:%s:%s@%s:%s" % (fam, what[:80], kind, st, reset.get("side", "")), probs
@@ -125,7 +135,7 @@ def run(ctx):
     # tlc's staging directory module-wide, so the two must not share a python process)
     with concurrent.futures.ProcessPoolExecutor(max_workers=1) as pool:
         fut = pool.submit(design_level, ctx, thorough)
-        fam_res, traces, resets = {}, [], {}
+        fam_res, traces, resets, hangs = {}, [], {}, []
         env = {"GOLOG_LOG_LEVEL": "error+8"}                # the code logs every injected failure at error level
         if thorough:
             env["VERIF_C04_SWARM_ITERS"] = 600
@@ -141,6 +151,11 @@ def run(ctx):
                     for (tname, reset, evs) in tracecheck.load_ndjson(p):
                         tname = name + "-" + tname
                         reset = dict(reset, trace=tname)
+                        if reset.get("hang"):
+                            # the bubble stopped making progress in real time (a goroutine blocked on a mutex
+                            # whose holder waits for virtual time): inconclusive, never a verdict
+                            hangs.append("%s %s %s: %s" % (tname, reset.get("cfg"), reset.get("plan"), reset["hang"][:300]))
+                            continue
                         traces.append((tname, reset, evs))
                         resets[tname] = (reset, evs)
         if not traces:
@@ -182,6 +197,10 @@ def run(ctx):
         % (mc["states"], evals, fired, distinct, acc, len(rej), classes))
     if evals < (700 if not thorough else 2500) or fired < evals // 2:
         raise MachineryError("vacuous run: %d evaluations, %d fired" % (evals, fired))
+    if len(hangs) * 100 > evals:
+        raise MachineryError("%d of %d runs made no progress in real time: %s" % (len(hangs), evals, hangs[:3]))
+    for h in hangs[:5]:
+        ctx.notes.append("INCONCLUSIVE (real-time hang under synctest) " + h)
     cov = {
         "evaluations": evals,
         "distinct_nontrivial": distinct,
@@ -192,7 +211,7 @@ def run(ctx):
         "checker_cmd": "tlc C04_MC.tla (Released, SwarmClosed, Drained; CodeQuirks instances must violate Released); tlc C04_Obs.tla on every recorded ledger",
         "mc_instances": mc["instances"], "faults_fired": fired, "ledgers_accepted": acc, "ledgers_rejected": len(rej),
         "rejected_classes": classes, "exits_hit": exits, "model_exits": mc.get("exits"),
-        "model_exits_not_hit": missing,
+        "model_exits_not_hit": missing, "inconclusive_hangs": len(hangs), "notes": ctx.notes[:10],
         "per_family": {n: {"evaluations": r.get("extra", {}).get("evaluations", r.get("replayed")),
                            "fired": r.get("extra", {}).get("fired"), "distinct": r.get("distinct"),
                            "ops": {k[4:]: v for k, v in r.get("extra", {}).items() if k.startswith("ops/")}}
@@ -346,7 +365,9 @@ def crash_verdict(ctx, e, name, pkg, rx, env):
         raise e
     sig = re.sub(r"0x[0-9a-f]+|\d+", "N", m.group(1))[:120]
     try:
-        return goenv.run_harness(ctx, pkg, rx, timeout=1500, env=env)
+        res = goenv.run_harness(ctx, pkg, rx, timeout=1500, env=env)
+        ctx.notes.append("the %s harness process died once (%s) and ran to completion when repeated" % (name, sig))
+        return res
     except HarnessCrash as e2:
         m2 = _CRASH.search(e2.log or "")
         if m2 and re.sub(r"0x[0-9a-f]+|\d+", "N", m2.group(1))[:120] == sig:
@@ -354,7 +375,6 @@ def crash_verdict(ctx, e, name, pkg, rx, env):
                 {"class": "crash:%s:%s" % (name, sig), "what": "the %s harness process dies while tearing down an attempt: %s" % (name, m.group(1)),
                  "got": e2.log[-3000:], "walk": -1, "step": -1}]}
         raise e2
-    raise MachineryError("the %s harness crashed once (%s) and not again (inconclusive)" % (name, sig))
 
 
 MANIFEST = {
